@@ -68,8 +68,14 @@ def model_check(run, thorough):
                 raise core.ToolError(f"spec mutant {mut} was not refuted by AbsChecked:\n{r.out[-1500:]}")
             res["mutants"][mut] = {"refuted": True, "wall_s": round(r.wall, 1), "states": r.distinct}
 
-    with cf.ThreadPoolExecutor(max_workers=2) as ex:      # two lanes of TLC (3 workers each)
-        fs = [ex.submit(configs), ex.submit(mutants)]
+    def beastmeta():
+        # the metadata rules: the fixed-point dB law and the 48-bit stamp fields, checked as ASSUMEs
+        r = core.tlc_ok("mc/MC_BeastMeta", cfg="mc/MC_BeastMeta.cfg", workers=2, xmx="2g", timeout=600, workdir=run.work)
+        res["beast_meta"] = {"assumes_checked": ["FullScale", "Increasing", "Multiplicative", "Decade", "Octave",
+                                                 "Anchors", "Fields", "LastInstant"], "wall_s": round(r.wall, 1)}
+
+    with cf.ThreadPoolExecutor(max_workers=3) as ex:      # two lanes of TLC (3 workers each) + the ASSUME module
+        fs = [ex.submit(configs), ex.submit(mutants), ex.submit(beastmeta)]
         for f in fs:
             f.result()
     return res
@@ -182,6 +188,17 @@ def corruptions(events):
             add("s_reference", c)
         c = copy.deepcopy(sc); c[0]["died"] = True
         add("x_died", c)
+        # metadata (BeastMeta.tla): a level 0.5 dB off, a level shown for signal byte 255 / hidden otherwise,
+        # a gnss time shown or hidden against the one-hour rule
+        withr = [i for i in recs if sc[i]["m"][0].get("rs")]
+        if withr:
+            c = copy.deepcopy(sc); c[withr[0]]["m"][0]["rv"] += 500
+            add("m_rssi", c)
+            c = copy.deepcopy(sc); c[withr[0]]["m"][0]["rs"] = False
+            add("m_rssi", c)
+        if sc[0].get("sod", -1) >= 0:
+            c = copy.deepcopy(sc); c[i0]["m"][0]["gs"] = not c[i0]["m"][0]["gs"]; c[i0]["m"][0]["gd"] = 0
+            add("m_gnss", c)
         skew = pipeline.SKEW_MS
         w = sc[0]["w"]
         for x in range(len(recs)):
